@@ -13,6 +13,7 @@ import sys, os, re, json, time, subprocess, hashlib, fcntl, shutil, glob
 VERIF = os.path.dirname(os.path.dirname(os.path.abspath(__file__)))
 sys.path.insert(0, os.path.join(VERIF, 'tools'))
 import registry  # noqa: E402
+import gen_driver_main  # noqa: E402
 
 REPO = os.environ.get('N2K_REPO', '/repo')
 SRC = os.path.join(REPO, 'src')
@@ -86,6 +87,7 @@ def theorems_in(props_file):
 
 def lake_build(targets):
     with Lock('lake.lock'):
+        gen_driver_main.run()
         t0 = time.time()
         r = run(['lake', 'build'] + targets, cwd=LEAN)
         return r.returncode == 0, r.stdout, time.time() - t0
@@ -214,11 +216,13 @@ def case_of(ops, idx, case_start):
 # --------------------------------------------------------------------------------------------- findings
 
 def load_findings(pid):
-    p = os.path.join(VERIF, 'known_findings.json')
-    if not os.path.exists(p):
-        return {}
-    data = json.load(open(p))
-    return {e['key']: e for e in data.get('findings', []) if e.get('property') == pid}
+    out = {}
+    for p in [os.path.join(VERIF, 'known_findings.json')] + sorted(glob.glob(os.path.join(VERIF, 'known_findings.d', '*.json'))):
+        if os.path.exists(p):
+            for e in json.load(open(p)).get('findings', []):
+                if e.get('property') == pid:
+                    out[e['key']] = e
+    return out
 
 
 def write_replay(pid, kind, payload):
